@@ -691,8 +691,14 @@ func handleReferences[P topLevelEntryProto, S topLevelEntryStruct](r *RIB, niRIB
 }
 
 func (r *RIB) handleNHGReferences(niRIB *RIBHolder, original *aft.Afts_NextHopGroup, new *aftpb.Afts_NextHopGroup) {
-	// Increment all the new references.
+	// Increment all the new references. The group is stored keyed by next-hop
+	// index, so a next-hop that is listed more than once is one reference.
+	seen := map[uint64]bool{}
 	for _, nh := range new.NextHop {
+		if seen[nh.GetIndex()] {
+			continue
+		}
+		seen[nh.GetIndex()] = true
 		niRIB.incNHRefCount(nh.GetIndex())
 	}
 
